@@ -17,6 +17,7 @@ mod birth;
 mod cmd;
 mod wire;
 mod loop_;
+mod nodeabs;
 
 use common::*;
 use std::path::{Path, PathBuf};
@@ -45,6 +46,7 @@ fn replay_file(comp: &str, path: &Path, out: &mut Out) {
         "cmd" => cmd::replay(&desc, &ops, out),
         "wire" => wire::replay(&desc, &ops, out),
         "loop" => loop_::replay(&desc, &ops, out),
+        "nodeabs" => nodeabs::replay(&desc, &ops, out),
         _ => panic!("unknown component"),
     }
 }
@@ -152,6 +154,7 @@ fn main() {
         "cmd" => cmd::run(&args, &mut out),
         "wire" => wire::run(&args, &mut out),
         "loop" => loop_::run(&args, &mut out),
+        "nodeabs" => nodeabs::run(&args, &mut out),
         _ => {
             eprintln!("unknown component {}", comp);
             std::process::exit(2)
